@@ -7,7 +7,7 @@ import itertools
 from ..core import Ctx
 from ..loader import AnalysisError
 from ..dectab import Abstract, DTop, Interp, Raises
-from ..symex import SUMMARIZER, expand, strip_ifexp_paths, u
+from ..symex import SUMMARIZER, expand, strip_ifexp_paths, u, main_leaf, main_path, side_paths
 
 MS = "matrix/subtotals.py"
 SI = "stripe/insertion.py"
@@ -148,7 +148,7 @@ def signed_sums(ctx: Ctx):
     for short, cname, member in targets:
         ci = ctx.repo.cls(short, cname)
         e = expand(ctx.repo, ci, member, bind=_bind("subtotal"), stop=lambda m: True)
-        leaf = strip_ifexp_paths(e)[-1][1]
+        leaf = main_leaf(e)
         got = []
         for sign, term in _signed_terms(leaf):
             t = u(term)
@@ -221,7 +221,7 @@ def flags(ctx: Ctx):
         ctx.count("flag table entries")
     for cname, flag in (("_RowComparableCounts", "diff_cols_nan"), ("_ColumnComparableCounts", "diff_rows_nan")):
         e = expand(ctx.repo, ctx.repo.cls(MM, cname), "blocks", stop=lambda m: m.name == "is_defined")
-        leaf = strip_ifexp_paths(e)[-1][1]
+        leaf = main_leaf(e)
         ctx.check_expr("flag-table", f"{MM}::{cname}.blocks", leaf, f"SumSubtotals.blocks({W}.counts, self._dimensions, {flag}=True)")
         ctx.count("flag table entries")
     ctx.require_min("flag table entries", 5)
